@@ -19,22 +19,33 @@ def _is_sym(x):
 
 
 def _ctx_params(ctx):
-    """(p, n, rm) of a float-like context without overflow handling, or None for REAL"""
-    import fpy2 as fp
+    """(p, n, rm, has_neg_zero, max magnitude as (c, exp) or None) of a context the summaries model, or None for REAL"""
     from fpy2.number.context.real import RealContext
     if isinstance(ctx, RealContext):
         return None
     name = type(ctx).__name__
+    if getattr(ctx, 'num_randbits', 0) != 0:
+        raise NotImplementedError('summary: stochastic context')
     if name == 'MPFloatContext':
-        return ctx.pmax, None, ctx.rm.name
+        return ctx.pmax, None, ctx.rm.name, True, None
     if name == 'MPSFloatContext':
-        return ctx.pmax, ctx.nmin, ctx.rm.name
+        return ctx.pmax, ctx.nmin, ctx.rm.name, True, None
+    if name == 'MPFixedContext':
+        return None, ctx.nmin, ctx.rm.name, bool(ctx.enable_neg_zero), None
+    if name in ('IEEEContext',):
+        mv = ctx.maxval()
+        return ctx.pmax, ctx.nmin, ctx.rm.name, True, (int(mv.c), int(mv.exp))
     raise NotImplementedError('summary: context %s' % name)
 
 
 def _as_float(x):
     from fpy2 import Float
     if isinstance(x, Float):
+        c = x.c
+        if type(c) is not SymInt and type(x.exp) is not SymInt and not x.is_nar() and c != 0 and c & 1 == 0:
+            # concrete operand with trailing zeros (e.g. a converted python float): keep the significand small
+            tz = (c & -c).bit_length() - 1
+            return Float(bool(x.s) if type(x.s) is not SymInt else x.s, x.exp + tz, c >> tz)
         return x
     if isinstance(x, Fraction):
         return Float.from_rational(x)
@@ -51,21 +62,45 @@ def _sbool(x):
     return z3.BoolVal(bool(s))
 
 
+def _ub(x, exp):
+    """static upper bound on the bit length of |x| in units of 2^exp, or None when unknown"""
+    c = x.c
+    if type(c) is SymInt:
+        b = getattr(c, 'ub', None)
+        if b is None:
+            return None
+    else:
+        b = int(c).bit_length()
+    return b + (x.exp - exp)
+
+
 def _signed(x, exp):
     """signed significand of x at exponent `exp` (<= x.exp) as a BV term of engine width"""
     e = cur()
     c = bv(x.c)
     sh = x.exp - exp
+    ub = _ub(x, exp)
+    safe = ub is not None and ub < e.W - 2
     if sh:
         r = c << sh
-        e.oblige(z3.LShR(r, sh) == c, 'summary-shift-overflow')
+        if not safe:
+            e.oblige(z3.LShR(r, sh) == c, 'summary-shift-overflow')
         c = r
-    e.oblige(c >= 0, 'summary-sign-overflow')
+    if not safe:
+        e.oblige(c >= 0, 'summary-sign-overflow')
     return z3.If(_sbool(x), -c, c)
 
 
-def _mk_float(sign_term, exp, mag_term, ctx):
-    """build a Float without running __init__ (no forks): sign as SymInt 0/1, significand as SymInt"""
+def _fits(*ubs, extra=1):
+    """do static bounds prove that a sum of terms with these bit lengths fits the engine width?"""
+    if any(u is None for u in ubs):
+        return False
+    return max(ubs) + extra < cur().W - 2
+
+
+def _mk_float(sign_term, exp, mag_term, ctx, ub=None):
+    """build a Float without running __init__ (no forks): sign as SymInt 0/1, significand as SymInt
+    (`ub`: static bound on the significand's bit length, used to discharge overflow obligations without the solver)"""
     from fpy2 import Float, RealFloat
     from fpy2.number.number.flags import Flags
     W = cur().W
@@ -75,13 +110,15 @@ def _mk_float(sign_term, exp, mag_term, ctx):
     r._exp = exp
     mt = z3.simplify(mag_term)
     r._c = mt.as_long() if z3.is_bv_value(mt) else SymInt(mt)
+    if type(r._c) is SymInt and ub is not None:
+        r._c.ub = ub
     r._flags = Flags()
     f = object.__new__(Float)
     f._real = r; f._isinf = False; f._isnan = False; f._ctx = ctx
     return f
 
 
-def _finish(m, exp, ctx, zero_neg):
+def _finish(m, exp, ctx, zero_neg, ub=None):
     """m: exact signed significand (BV term) at exponent exp; zero_neg: z3 Bool, sign of an exact zero result.
     Round once under ctx and build the Float — no forks."""
     e = cur()
@@ -92,16 +129,30 @@ def _finish(m, exp, ctx, zero_neg):
         R = mag
         rneg = z3.If(m == 0, zero_neg, neg)
     else:
-        p, n, rm = params
+        p, n, rm, has_nz, maxv = params
         K = -exp
+        if n is not None and n + 1 + K < 0:
+            # the value's own scale is coarser than the context's finest digit: nothing below position n can be set
+            n_eff = -K - 1
+        else:
+            n_eff = n
         # directed modes depend on the sign: build both and select
         if rm in ('RTP', 'RTN'):
-            Rp = round_detail(mag, False, p, n, rm, K)['R']; Rn = round_detail(mag, True, p, n, rm, K)['R']
+            Rp = round_detail(mag, False, p, n_eff, rm, K)['R']; Rn = round_detail(mag, True, p, n_eff, rm, K)['R']
             R = z3.If(neg, Rn, Rp)
         else:
-            R = round_detail(mag, False, p, n, rm, K)['R']
+            R = round_detail(mag, False, p, n_eff, rm, K)['R']
         rneg = z3.If(m == 0, zero_neg, neg)
-    return _mk_float(rneg, exp, R, ctx)
+        if not has_nz:
+            rneg = z3.And(rneg, R != 0)
+        if maxv is not None:
+            mc, me = maxv
+            sh = me - exp
+            if sh < e.W - 2:
+                lim = mc << sh if sh >= 0 else mc >> (-sh)
+                if lim < (1 << (e.W - 2)):
+                    e.oblige(R <= lim, 'summary-overflow-not-modelled')
+    return _mk_float(rneg, exp, R, ctx, None if ub is None else ub + 1)
 
 
 def make(real_ops):
@@ -124,8 +175,11 @@ def make(real_ops):
         x, y = _as_float(x), _as_float(y)
         ex = min(x.exp, y.exp)
         a, b = _signed(x, ex), _signed(y, ex)
-        cur().oblige(z3.And(z3.BVAddNoOverflow(a, b, True), z3.BVAddNoUnderflow(a, b)), 'summary-add-overflow')
-        return _finish(a + b, ex, ctx, z3.And(_sbool(x), _sbool(y)))
+        ua, ub_ = _ub(x, ex), _ub(y, ex)
+        ok = _fits(ua, ub_)
+        if not ok:
+            cur().oblige(z3.And(z3.BVAddNoOverflow(a, b, True), z3.BVAddNoUnderflow(a, b)), 'summary-add-overflow')
+        return _finish(a + b, ex, ctx, z3.And(_sbool(x), _sbool(y)), (max(ua, ub_) + 1) if ok else None)
 
     def sub(x, y, ctx=None):
         if not usable(x, y):
@@ -133,16 +187,22 @@ def make(real_ops):
         x, y = _as_float(x), _as_float(y)
         ex = min(x.exp, y.exp)
         a, b = _signed(x, ex), _signed(y, ex)
-        cur().oblige(z3.And(z3.BVSubNoOverflow(a, b), z3.BVSubNoUnderflow(a, b, True)), 'summary-sub-overflow')
-        return _finish(a - b, ex, ctx, z3.And(_sbool(x), z3.Not(_sbool(y))))
+        ua, ub_ = _ub(x, ex), _ub(y, ex)
+        ok = _fits(ua, ub_)
+        if not ok:
+            cur().oblige(z3.And(z3.BVSubNoOverflow(a, b), z3.BVSubNoUnderflow(a, b, True)), 'summary-sub-overflow')
+        return _finish(a - b, ex, ctx, z3.And(_sbool(x), z3.Not(_sbool(y))), (max(ua, ub_) + 1) if ok else None)
 
     def mul(x, y, ctx=None):
         if not usable(x, y):
             return real_ops['mul'](x, y, ctx=ctx)
         x, y = _as_float(x), _as_float(y)
         a, b = _signed(x, x.exp), _signed(y, y.exp)
-        cur().oblige(z3.And(z3.BVMulNoOverflow(a, b, True), z3.BVMulNoUnderflow(a, b)), 'summary-mul-overflow')
-        return _finish(a * b, x.exp + y.exp, ctx, z3.Xor(_sbool(x), _sbool(y)))
+        ua, ub_ = _ub(x, x.exp), _ub(y, y.exp)
+        ok = ua is not None and ub_ is not None and ua + ub_ < cur().W - 2
+        if not ok:
+            cur().oblige(z3.And(z3.BVMulNoOverflow(a, b, True), z3.BVMulNoUnderflow(a, b)), 'summary-mul-overflow')
+        return _finish(a * b, x.exp + y.exp, ctx, z3.Xor(_sbool(x), _sbool(y)), (ua + ub_) if ok else None)
 
     def fma(x, y, z, ctx=None):
         if not usable(x, y, z):
@@ -166,24 +226,30 @@ def make(real_ops):
         if not usable(x):
             return real_ops['neg'](x, ctx=ctx)
         x = _as_float(x)
-        return _finish(-_signed(x, x.exp), x.exp, ctx, z3.Not(_sbool(x)))
+        return _finish(-_signed(x, x.exp), x.exp, ctx, z3.Not(_sbool(x)), _ub(x, x.exp))
 
     def fabs(x, ctx=None):
         if not usable(x):
             return real_ops['fabs'](x, ctx=ctx)
         x = _as_float(x)
         m = _signed(x, x.exp)
-        return _finish(z3.If(m < 0, -m, m), x.exp, ctx, z3.BoolVal(False))
-    return dict(add=add, sub=sub, mul=mul, fma=fma, neg=neg, fabs=fabs)
+        return _finish(z3.If(m < 0, -m, m), x.exp, ctx, z3.BoolVal(False), _ub(x, x.exp))
+    def round_(x, ctx=None):
+        if not usable(x):
+            return real_ops['round'](x, ctx=ctx)
+        x = _as_float(x)
+        return _finish(_signed(x, x.exp), x.exp, ctx, _sbool(x), _ub(x, x.exp))
+    return dict(add=add, sub=sub, mul=mul, fma=fma, neg=neg, fabs=fabs, round=round_)
 
 
-def install():
-    """rebind the interpreter's operator tables (harness-side; restored by shims.reset_all)"""
+def install(patch_ops_module=True):
+    """rebind the interpreter's operator tables (and the `fpy2.ops` functions the interpreter helpers call directly);
+    harness-side, restored by shims.reset_all"""
     from . import shims
     import fpy2.ops as ops
     from fpy2.interpret import byte
     from fpy2.ast import fpyast as A
-    real = dict(add=ops.add, sub=ops.sub, mul=ops.mul, fma=ops.fma, neg=ops.neg, fabs=ops.fabs)
+    real = dict(add=ops.add, sub=ops.sub, mul=ops.mul, fma=ops.fma, neg=ops.neg, fabs=ops.fabs, round=ops.round)
     S = make(real)
     shims.patch_item(byte._BINARY_TABLE, A.Add, S['add'])
     shims.patch_item(byte._BINARY_TABLE, A.Sub, S['sub'])
@@ -191,4 +257,8 @@ def install():
     shims.patch_item(byte._TERNARY_TABLE, A.Fma, S['fma'])
     shims.patch_item(byte._UNARY_TABLE, A.Neg, S['neg'])
     shims.patch_item(byte._UNARY_TABLE, A.Abs, S['fabs'])
+    shims.patch_item(byte._UNARY_TABLE, A.Round, S['round'])
+    if patch_ops_module:
+        for k, name in (('add', 'add'), ('sub', 'sub'), ('mul', 'mul'), ('fma', 'fma'), ('neg', 'neg'), ('fabs', 'fabs'), ('round', 'round')):
+            shims.patch(ops, name, S[k])
     return S, real
